@@ -451,12 +451,13 @@ int main(int argc, char** argv)
     add<char16_t>(m, q, 3, 2, false);
     add_highbit<char>(m, both);
     add_highbit<char8_t>(m, both);
+    add<char>(m, th, 8, 5, false);
     add<char>(m, th, 6, 4, false);
-    add<char>(m, th, 4, 3, true);
-    add<char16_t>(m, th, 5, 3, false);
-    add<wchar_t>(m, th, 4, 3, false);
-    add<char8_t>(m, th, 4, 3, false);
-    add<char32_t>(m, th, 4, 3, true);
+    add<char>(m, th, 5, 4, true);
+    add<char16_t>(m, th, 7, 4, false);
+    add<wchar_t>(m, th, 6, 4, false);
+    add<char8_t>(m, th, 6, 4, false);
+    add<char32_t>(m, th, 5, 3, true);
     add_highbit<wchar_t>(m, th);
     add_highbit<char16_t>(m, th);
     return m.run();
